@@ -289,7 +289,8 @@ func cmdDriveCosmetic(args []string) error {
 			wide = append(wide, fmt.Sprintf("wide%03d.example", i))
 		}
 		// rules whose permitted domain is itself a public suffix (private or ICANN): they apply to every site under it
-		for _, l := range []string{"blogspot.com##.suffix-rule", "co.uk,~shop.co.uk##.suffix-rule-2", "github.io#@#.generic-never", "lan##.suffix-rule-3"} {
+		for _, l := range []string{"dup.example,~shop.dup.example##.promo", "dup.example,~blog.dup.example##.promo", "blog.dup.example#@#.other",
+			"blogspot.com##.suffix-rule", "co.uk,~shop.co.uk##.suffix-rule-2", "github.io#@#.generic-never", "lan##.suffix-rule-3"} {
 			if r, err := rules.NewRule(l, 1); err == nil {
 				if cr, ok := r.(*rules.CosmeticRule); ok && cr != nil {
 					cos = append(cos, cr)
@@ -297,7 +298,7 @@ func cmdDriveCosmetic(args []string) error {
 				}
 			}
 		}
-		domains = append(domains, "myblog.blogspot.com", "blogspot.com", "news.co.uk", "x.shop.co.uk", "user.github.io", "printer.lan")
+		domains = append(domains, "shop.dup.example", "blog.dup.example", "dup.example", "myblog.blogspot.com", "blogspot.com", "news.co.uk", "x.shop.co.uk", "user.github.io", "printer.lan")
 		long := []string{strings.Join(wide, ",") + "##.wide-banner", "! " + strings.Repeat("long comment ", 400),
 			strings.Join(wide[100:380], ",") + "#@#.wide-banner", "wide001.example,~sub.wide001.example##.after-long-lines"}
 		for _, l := range long {
@@ -319,6 +320,7 @@ func cmdDriveCosmetic(args []string) error {
 		return err
 	}
 	eng := urlfilter.NewCosmeticEngine(st)
+	weng := urlfilter.NewEngine(st)
 	nonEmpty := 0
 	for i := 0; i < n; i++ {
 		d := domains[rnd.Intn(len(domains))]
@@ -336,7 +338,8 @@ func cmdDriveCosmetic(args []string) error {
 			}
 		}
 		forced := []string{"wide000.example", "wide001.example", "sub.wide001.example", "wide099.example", "www.wide100.example", "wide250.example",
-			"wide380.example", "wide399.example", "myblog.blogspot.com", "a.b.blogspot.com", "news.co.uk", "x.shop.co.uk", "user.github.io", "printer.lan"}
+			"wide380.example", "wide399.example", "myblog.blogspot.com", "a.b.blogspot.com", "news.co.uk", "x.shop.co.uk", "user.github.io", "printer.lan",
+			"shop.dup.example", "blog.dup.example", "www.dup.example"}
 		if i < len(forced) {
 			host = forced[i]
 		}
@@ -365,6 +368,23 @@ func cmdDriveCosmetic(args []string) error {
 			nonEmpty++
 		}
 		out.write(ev)
+		// the same question through Engine.GetCosmeticResult, which takes the flags as option bits
+		ev2 := ev
+		ev2.Generic, ev2.Specific = []string{}, []string{}
+		opt := rules.CosmeticOptionJS
+		if ev.CSS {
+			opt |= rules.CosmeticOptionCSS
+		}
+		if ev.GCSS {
+			opt |= rules.CosmeticOptionGenericCSS
+		}
+		pv = safeCall(func() {
+			res := weng.GetCosmeticResult(host, opt)
+			ev2.Generic = append(ev2.Generic, res.ElementHiding.Generic...)
+			ev2.Specific = append(ev2.Specific, res.ElementHiding.Specific...)
+		})
+		ev2.Panic = pv != ""
+		out.write(ev2)
 	}
 	summary(map[string]any{"events": out.n, "cosmetic_rules": len(cos), "generic_sampled": generic, "with_specific_result": nonEmpty})
 	return nil
